@@ -220,7 +220,11 @@ def record_for(prog, obs, same, split=None):
 def concretise(tprog, i):
     """tprog: {('A','m'): (ins records...), ('B','n'): (...)} from the TLC dump; i: namespace number"""
     ns = "Lq%d/" % i
-    cname = {"A": ns + "A;", "B": ns + "B;", "X": ns + "X;", "[A": "[" + ns + "A;", "[B": "[" + ns + "B;", "[I": "[I", "": ""}
+    dims = "[" * (1 + i % 3)          # array classes of 1..3 dimensions, field opcodes of every type, static and instance forms: rotate with i
+    cname = {"A": ns + "A;", "B": ns + "B;", "X": ns + "X;", "[A": dims + ns + "A;", "[B": dims + ns + "B;", "[I": dims + "IJ"[i % 2], "": ""}
+    ftype = ["I", "J", "Ljava/lang/String;", "Z", "B", "C", "S"][i % 7]
+    suffix = {"I": "", "J": "-wide", "Ljava/lang/String;": "-object", "Z": "-boolean", "B": "-byte", "C": "-char", "S": "-short"}[ftype]
+    form = "si"[(i // 7) % 2]
 
     def conv(ins):
         op, cls, name = ins["op"], ins["cls"], ins["name"]
@@ -231,13 +235,13 @@ def concretise(tprog, i):
                 nm = name + "()V"
             return dict(op=op, cls=cname[cls], name=nm)
         if op in ("rd", "wr"):
-            return dict(op=op, cls=cname[cls], name=name + ":I")
+            return dict(op=op, cls=cname[cls], name=name + ":" + ftype, how=form + ("get" if op == "rd" else "put") + suffix)
         if op == "str":
             return dict(op=op, cls="", name="q%d:%s" % (i, name))
         return dict(op=op, cls=cname[cls], name="")
     code = {k: [conv(dict(x)) for x in v] for k, v in tprog.items()}
-    return dict(ns=ns, classes=[dict(name=cname["A"], fields=[("f", "I")], methods=[dict(name="m()V", code=code[("A", "m")])]),
-                                 dict(name=cname["B"], fields=[("g", "I")], methods=[dict(name="n()V", code=code[("B", "n")])])])
+    return dict(ns=ns, classes=[dict(name=cname["A"], fields=[("f", ftype)], methods=[dict(name="m()V", code=code[("A", "m")])]),
+                                 dict(name=cname["B"], fields=[("g", ftype)], methods=[dict(name="n()V", code=code[("B", "n")])])])
 
 
 def random_program(rnd, i, max_classes):
@@ -246,7 +250,7 @@ def random_program(rnd, i, max_classes):
     names = [ns + "C%d;" % k for k in range(nc)]
     classes = []
     for cn in names:
-        fields = [("f%d" % k, rnd.choice(["I", "J", "Ljava/lang/String;"])) for k in range(rnd.randrange(0, 3))]
+        fields = [("f%d" % k, rnd.choice(["I", "J", "Ljava/lang/String;", "Z", "B", "C", "S"])) for k in range(rnd.randrange(0, 3))]
         methods = []
         for k in range(rnd.randrange(1, 4)):
             methods.append(dict(name=rnd.choice(["m%d()V" % k, "m%d(I)V" % k, "run%d(J)I" % k]), code=[]))
@@ -285,7 +289,7 @@ def random_program(rnd, i, max_classes):
                     else:
                         cls, (fn, ft) = ns + "Ext;", ("h", "I")
                     rd = rnd.random() < 0.5
-                    suffix = {"I": "", "J": "-wide", "Ljava/lang/String;": "-object"}[ft]
+                    suffix = {"I": "", "J": "-wide", "Ljava/lang/String;": "-object", "Z": "-boolean", "B": "-byte", "C": "-char", "S": "-short"}[ft]
                     how = rnd.choice(["s", "i"]) + ("get" if rd else "put") + suffix
                     ins = dict(op="rd" if rd else "wr", cls=cls, name=fn + ":" + ft, how=how)
                 elif r < 0.8:
